@@ -377,7 +377,12 @@ impl Lz<'_> {
 pub fn zlib_encode(data: &[u8], mode: ZMode, c: &mut dyn Choice) -> Vec<u8> {
     let n = data.len();
     let flg = c.below(4) << 6;
-    let mut w = BitW { out: vec![0x78, (flg + (31 - (0x7800 + flg) % 31) % 31) as u8], acc: 0, n: 0 };
+    // CMF = CINFO << 4 | 8 (RFC 1950): the usual 32 KiB window gives 0x78; where no back-reference can reach further
+    // than 256 bytes (stored blocks only, or at most 256 bytes of data) any smaller window may be declared
+    let small_ok = matches!(mode, ZMode::Stored) || n <= 256;
+    let cinfo = if small_ok && c.below(3) == 0 { c.below(8) } else { 7 };
+    let cmf = (cinfo << 4) | 8;
+    let mut w = BitW { out: vec![cmf as u8, (flg + (31 - (cmf * 256 + flg) % 31) % 31) as u8], acc: 0, n: 0 };
     let mut lz = Lz { d: data, head: vec![0; 1 << 15], prev: vec![0; n] };
     let (mut pos, mut trailing) = (0usize, 0);
     loop {
